@@ -67,6 +67,12 @@ impl ImportTracker {
             IrStmtKind::Expr(e) => self.scan_expr(e),
             IrStmtKind::Return(Some(e)) => self.scan_expr(e),
             IrStmtKind::Assign { value, .. } => self.scan_expr(value),
+            IrStmtKind::CompoundAssign { value, .. } => self.scan_expr(value),
+            IrStmtKind::Loop { body, .. } | IrStmtKind::Block(body) => {
+                for s in body {
+                    self.scan_stmt(s);
+                }
+            }
             IrStmtKind::If {
                 condition,
                 then_branch,
@@ -171,6 +177,82 @@ impl ImportTracker {
             IrExprKind::Struct { fields, .. } => {
                 for (_, e) in fields {
                     self.scan_expr(e);
+                }
+            }
+            IrExprKind::Match { scrutinee, arms } => {
+                self.scan_expr(scrutinee);
+                for arm in arms {
+                    if let Some(guard) = &arm.guard {
+                        self.scan_expr(guard);
+                    }
+                    self.scan_expr(&arm.body);
+                }
+            }
+            IrExprKind::BuiltinCall { args, .. } => {
+                for arg in args {
+                    self.scan_expr(arg);
+                }
+            }
+            IrExprKind::KnownMethodCall { receiver, args, .. } => {
+                self.scan_expr(receiver);
+                for arg in args {
+                    self.scan_expr(&arg.expr);
+                }
+            }
+            IrExprKind::Slice {
+                target,
+                start,
+                end,
+                step,
+            } => {
+                self.scan_expr(target);
+                for part in [start, end, step].into_iter().flatten() {
+                    self.scan_expr(part);
+                }
+            }
+            IrExprKind::ListComp {
+                element,
+                iterable,
+                filter,
+                ..
+            } => {
+                self.scan_expr(element);
+                self.scan_expr(iterable);
+                if let Some(f) = filter {
+                    self.scan_expr(f);
+                }
+            }
+            IrExprKind::DictComp {
+                key,
+                value,
+                iterable,
+                filter,
+                ..
+            } => {
+                self.scan_expr(key);
+                self.scan_expr(value);
+                self.scan_expr(iterable);
+                if let Some(f) = filter {
+                    self.scan_expr(f);
+                }
+            }
+            IrExprKind::Tuple(items) => {
+                for item in items {
+                    self.scan_expr(item);
+                }
+            }
+            IrExprKind::Closure { body, .. } => self.scan_expr(body),
+            IrExprKind::Await(inner) | IrExprKind::Try(inner) | IrExprKind::Cast { expr: inner, .. } => self.scan_expr(inner),
+            IrExprKind::Range { start, end, .. } => {
+                for part in [start, end].into_iter().flatten() {
+                    self.scan_expr(part);
+                }
+            }
+            IrExprKind::Format { parts } => {
+                for part in parts {
+                    if let super::super::expr::FormatPart::Expr(e) = part {
+                        self.scan_expr(e);
+                    }
                 }
             }
             _ => {}
